@@ -51,6 +51,7 @@ var c16FieldExceptions = map[string]string{
 func runC16(w *World, r *Report) {
 	defer c16ArgumentNames(w, r)
 
+	c15FormatterNames(w, r, "R-C16-6")
 	r.Rule("R-C16-1", "every ast node type constructed by the parser has a printer: a type-switch case or a typed parameter in the format*.go files", 60)
 	r.Rule("R-C16-2", "every field of an ast node that the parser writes (composite literal key or assignment) is read in the format*.go files", 150)
 	r.Rule("R-C16-3", "Children() completeness (same rule as R-C15-1)", 60)
